@@ -540,7 +540,7 @@ Definition skip_c_hazard (g : geom) (st : cst) (n : Z) : bool :=
     let ll := (L - c_scan st mod L) mod L in
     let la := n - ll in
     if (n <? ll + 1) || ((ll <=? 1) && c_bfull st && (la <? L + 1)) then false
-    else (1 <? ll) && c_bfull st.
+    else (1 <? ll) && (ll <? gv g) && c_bfull st.
 
 Fixpoint first_hazard_c (g : geom) (st : cst) (ops : list op) : Z :=
   match ops with
